@@ -23,7 +23,7 @@ def gen_case(rng, idx):
     calls = []
     # nested features share graph nodes between the tasks' sweeps: a documented limit of
     # retain_graph=False (C13's side condition), so such programs are driven with retain_graph=True
-    nested = any(a != b and prog.reach(a, b) for a in feats for b in feats)
+    nested = ajlib.entangled(prog, feats)
     variants = [(None, None), (tasks, shared), (tasks, None), (None, shared)]
     for k in [None, 1, 2, t + 1]:
         tp, sp = rng.choice(variants)
